@@ -132,7 +132,8 @@ def build(model, ranks=None, plain=False):
         unit_timedelta=datetime.timedelta(seconds=model.get("unit_s", 60)),
         product=Product(comps),
         organization=Organization(team_list=teams, workplace_list=wps),
-        workflow=Workflow(tasks),
+        # workflow.task_list order: the spec order (a topological order) unless the model asks for another one
+        workflow=Workflow([tasks[i] for i in model["order"]] if model.get("order") else tasks),
     )
     b = Built()
     b.project, b.tasks, b.comps, b.teams, b.wps = project, tasks, comps, teams, wps
